@@ -62,12 +62,31 @@ func buildFile(t *rapid.T, fl Flavor, c FileCase) built {
 	b.fp = b.fs.PathJoin(b.dir, server.GetSnapshotFilename(0xAA))
 	b.session, b.resaved = fl.SessionBytes(c.Sess)
 	b.payload = c.Pay.Bytes()
-	sv, err := SaveFile(b.fs, b.fp, fl.Writer, ct(c.Compressed), b.session, Segments(b.payload, c.WriteCuts))
+	// the writer gets its own buffers; the pristine copies are what everything
+	// read back is compared with
+	wsession := append([]byte{}, b.session...)
+	wpayload := append([]byte{}, b.payload...)
+	sv, err := SaveFile(b.fs, b.fp, fl.Writer, ct(c.Compressed), wsession, Segments(wpayload, c.WriteCuts))
 	if err != nil {
 		vfhelp.Fail(t, "c14-save-failed", "saving failed: %v", err)
 	}
+	checkCallerBuffers(t, "file writer", c, wsession, b.session, wpayload, b.payload)
 	b.sv = sv
 	return b
+}
+
+// checkCallerBuffers fails if the writer modified the buffers handed to Write.
+func checkCallerBuffers(t *rapid.T, who string, c FileCase, wsession, session, wpayload, payload []byte) {
+	if !bytes.Equal(wsession, session) {
+		vfhelp.Fail(t, "c14-writer-modified-caller-buffer", "%s modified the session buffer passed to Write (first difference at %d), case %s",
+			who, firstDiff(wsession, session), c.Canon())
+	}
+	if !bytes.Equal(wpayload, payload) {
+		d := firstDiff(wpayload, payload)
+		vfhelp.Fail(t, "c14-writer-modified-caller-buffer",
+			"%s modified the payload buffer passed to Write: first difference at payload offset %d (stream offset %d = %d blocks %+d bytes), case %s",
+			who, d, d+len(session), (d+len(session))/BlockSize, (d+len(session))%BlockSize, c.Canon())
+	}
 }
 
 func resave(m *rsm.SessionManager) []byte {
@@ -142,8 +161,36 @@ func wantDiskSize(total uint64) uint64 {
 
 // FileRoundTrip returns the property function.
 func FileRoundTrip(st *vfhelp.Stats, fl Flavor, bigPct int) func(t *rapid.T) {
+	return FileRoundTripHuge(st, fl, bigPct, 0)
+}
+
+// largeWriteAtBoundary tells whether one Write call still holds at least a
+// whole block plus the CRC size when the writer reaches a block boundary
+// inside it (uncompressed stream coordinates).
+func largeWriteAtBoundary(cuts []int, payloadLen int, sessLen int) bool {
+	prev := 0
+	ends := append(append([]int{}, cuts...), payloadLen)
+	for _, e := range ends {
+		if e > payloadLen {
+			e = payloadLen
+		}
+		if e > prev {
+			// first block boundary at or after the start of this piece
+			start, end := prev+sessLen, e+sessLen
+			bnd := (start + BlockSize - 1) / BlockSize * BlockSize
+			if bnd > 0 && end-bnd >= BlockSize+CRCSize {
+				return true
+			}
+			prev = e
+		}
+	}
+	return false
+}
+
+// FileRoundTripHuge is FileRoundTrip with hugePct percent of 3 block cases.
+func FileRoundTripHuge(st *vfhelp.Stats, fl Flavor, bigPct int, hugePct int) func(t *rapid.T) {
 	return func(t *rapid.T) {
-		c := GenFileCase(t, fl.V1, bigPct, func(s SessionSpec) int {
+		c := GenFileCaseHuge(t, fl.V1, bigPct, hugePct, func(s SessionSpec) int {
 			f, _ := fl.SessionBytes(s)
 			return len(f)
 		})
@@ -213,6 +260,25 @@ func FileRoundTrip(st *vfhelp.Stats, fl Flavor, bigPct int) func(t *rapid.T) {
 			labels = append(labels, "read-cut-at-block-boundary")
 		}
 		labels = append(labels, fmt.Sprintf("write-pieces<=%d", bucket(len(c.WriteCuts)+1)), fmt.Sprintf("read-pieces<=%d", bucket(len(c.ReadSizes)+1)))
+		if len(b.payload) >= BlockSize {
+			switch n := len(c.WriteCuts) + 1; {
+			case n == 1:
+				labels = append(labels, "big-payload/single-write")
+			case n <= 3:
+				labels = append(labels, "big-payload/two-or-three-writes")
+			default:
+				labels = append(labels, "big-payload/many-writes")
+			}
+		}
+		if largeWriteAtBoundary(c.WriteCuts, len(b.payload), len(b.session)) {
+			l := "write-holds-whole-block-at-boundary"
+			if c.Compressed {
+				l += "/compressed"
+			} else {
+				l += "/uncompressed"
+			}
+			labels = append(labels, l)
+		}
 		if !fl.V1 {
 			// shrunk-file recognition and shrinking (on disk state machines)
 			wantShrunk := !c.Compressed && len(b.payload) == 0 && len(c.Sess.Clients) == 0
@@ -262,7 +328,7 @@ func FileRoundTrip(st *vfhelp.Stats, fl Flavor, bigPct int) func(t *rapid.T) {
 				vfhelp.Fail(t, "c14-shrunk-checksum-unreadable", "%v", err)
 			}
 		}
-		nt := b.sv.Total+uint64(TailSize) >= uint64(BlockSize) && (wb || rb)
+		nt := b.sv.Total+uint64(TailSize) >= uint64(BlockSize) && (wb || rb || largeWriteAtBoundary(c.WriteCuts, len(b.payload), len(b.session)))
 		st.Case([]byte(c.Canon()), nt, labels...)
 		if nt && st.WantSample() {
 			st.Sample(map[string]interface{}{"case": c.Canon(), "stream_bytes": b.sv.Total, "file_bytes": len(file)})
@@ -668,9 +734,11 @@ func Stream(st *vfhelp.Stats, fl Flavor, bigPct int) func(t *rapid.T) {
 				Membership:      pb.Membership{Addresses: map[uint64]string{1: "a1", 2: "a2"}, ConfigChangeId: 7},
 			}
 			sink := &RecSink{Shard: 11, To: 3}
-			if err := StreamChunks(sink, meta, Segments(b.payload, c.WriteCuts)); err != nil {
+			wpayload := append([]byte{}, b.payload...)
+			if err := StreamChunks(sink, meta, Segments(wpayload, c.WriteCuts)); err != nil {
 				vfhelp.Fail(t, "c14-stream-write-failed", "%v", err)
 			}
+			checkCallerBuffers(t, "chunk writer", c, b.session, b.session, wpayload, b.payload)
 			checkChunkMeta(t, sink, meta, c)
 			for _, ch := range sink.Chunks {
 				datas = append(datas, ch.Data)
